@@ -99,6 +99,50 @@ def run_inprocess(ctx):
     return cov
 
 
+def run_e2e(ctx):
+    """End-to-end part: the generated servers of the shared e2e corpus whose routes sit under domain guards are sent
+    hosts derived from each guard (see e2e/plan.py::host_probes); the verdicts of the reference router on those probes,
+    and pavexc's verdict on guard sets (accept / conflict), are C20 verdicts."""
+    from checks import e2e_common
+    import json as _json
+    cases, results, evaluated, reused = e2e_common.corpus(ctx)
+    by_id = {c["id"]: c for c in cases}
+    n_apps = 0
+    n_probes = 0
+    guards = set()
+    samples = []
+    seen = {}
+    for cid, (vs, stats, status) in evaluated.items():
+        spec = by_id[cid]["spec"]
+        if spec.get("domains"):
+            guards |= set(spec["domains"])
+            if status == "ran":
+                n_apps += 1
+                n_probes += (stats or {}).get("host_probes", 0)
+                if len(samples) < 2:
+                    run = results[cid]["stages"]["runs"][-1]
+                    recs = {r["i"]: r for r in run["records"] if r.get("kind") == "req"}
+                    hp = [(i, r) for i, r in enumerate(by_id[cid]["plan"]) if r.get("sub") == "host" and i in recs and "resp" in recs[i]][:6]
+                    samples.append({"case": cid, "guards": spec["domains"], "host_probes": [
+                        {"guard": r["guard"], "host": r["host"], "status": recs[i]["resp"]["status"],
+                         "answered_by": [e["c"] for e in recs[i]["events"] if e["k"] == "enter" and (e["c"] in spec["handlers"] or e["c"] in spec["fallbacks"])]} for i, r in hp]})
+        for v in vs:
+            if v["prop"] != "C20":
+                continue
+            key = _json.dumps(v["sig"], sort_keys=True)
+            seen[key] = seen.get(key, 0) + 1
+            if seen[key] <= 2:
+                d = dict(v["detail"])
+                d["case"] = cid
+                d["spec"] = spec
+                ctx.violation(v["sig"], d)
+    return {"e2e_domain_apps_run": n_apps, "e2e_host_probes_judged": n_probes, "e2e_guards": sorted(guards), "e2e_samples": samples,
+            "e2e_violation_signatures": seen, "e2e_observations_reused_for_same_tree": reused}
+
+
 def run(ctx):
     cov = run_inprocess(ctx)
+    if not ctx.replay:
+        cov.update(run_e2e(ctx))
+        cov["evaluations"] = int(cov.get("evaluations", 0)) + cov["e2e_host_probes_judged"]
     ctx.finish(cov, ASSUMPTIONS, require_nontrivial=not ctx.replay)
